@@ -60,6 +60,71 @@ def long_chain_tree(rng):
     return nodes
 
 
+def build_very_long(sb, rng):
+    """A chain of directories whose total path exceeds PATH_MAX (4096). Such trees can only be built, and walked, with
+    relative names; find reaches them because it opens directories relative to where it already is... or reports an error.
+    Returns the list of expected paths (str) in -sorted pre-order, or None if the file system refuses."""
+    cwd = os.getcwd()
+    paths = ["r"]
+    try:
+        os.mkdir(os.path.join(sb, "r"))
+        os.chdir(os.path.join(sb, "r"))
+        cur = "r"
+        # 16 levels of 250-byte names = 4017 bytes: the directory itself can still be opened, the files in it have paths of 4023..4273 bytes
+        for lvl in range(16):
+            name = rng.choice("abcxyz") * 250
+            os.mkdir(name)
+            os.chdir(name)
+            cur = cur + "/" + name
+            paths.append(cur)
+        for nm in sorted(["f" * 5, "g" * 200, "h" * 254, "i" * 255]):
+            open(nm, "w").close()
+            paths.append(cur + "/" + nm)
+        return paths
+    except OSError:
+        return None
+    finally:
+        os.chdir(cwd)
+
+
+def very_long_worker(job):
+    k, nruns, seed = job
+    st = Stats()
+    rng = common.rng_for(seed, "C07L", k)
+    base = common.mkscratch("C07L%d" % k)
+    try:
+        for t in range(nruns):
+            sb = os.path.join(base, "t%d" % t)
+            os.makedirs(sb)
+            exp = build_very_long(sb, rng)
+            if exp is None:
+                st.inc("very_long_tree_not_buildable")
+                continue
+            for mode in ("-print0", "-print"):
+                delim = b"\0" if mode == "-print0" else b"\n"
+                rc, out, err, to = common.run_cmd([common.FIND, "r", "-sorted", mode], cwd=sb, env=common.clean_env(), timeout=60)
+                st.inc("evaluations")
+                st.inc("very_long_path_runs")
+                got = out.split(delim)[:-1]
+                want = [p.encode() for p in exp]
+                st.add("distinct", (mode, tuple(len(p) for p in exp)))
+                st.c["records_longer_than_4096_bytes"] += sum(1 for p in want if len(p) > 4096)
+                # entries that find cannot examine may be diagnosed instead of printed, but what is printed must be exact and complete up to there
+                if rc == 0:
+                    if got != want:
+                        bad = [(len(g), len(w)) for g, w in zip(got, want) if g != w][:3]
+                        st.violate("print-not-byte-exact", None, {"mode": mode, "problem": "paths beyond PATH_MAX altered", "lengths(observed,expected)": bad,
+                                                                  "n_observed": len(got), "n_expected": len(want)}, {"tree": "lib/c07.py build_very_long"})
+                else:
+                    if any(g not in want for g in got):
+                        st.violate("print-not-byte-exact", None, {"mode": mode, "problem": "a printed path is not a path of the tree", "exit": rc,
+                                                                  "stderr": err[-200:]}, {"tree": "lib/c07.py build_very_long"})
+            common.force_rmtree(sb)
+    finally:
+        common.force_rmtree(base)
+    return st
+
+
 def worker(job):
     k, ntrees, seed = job
     st = Stats()
@@ -138,6 +203,12 @@ def worker(job):
             # (c) the pipe into xargs -0
             log = os.path.join(sb, "rec.log")
             env2 = common.clean_env({"VERIF_REC_LOG": log})
+            # the command may fail (any status except 255, which xargs treats as "stop"): every path is still delivered once
+            statuses = None
+            if rng.random() < 0.5:
+                statuses = [rng.choice(["0", "0", "1", "2", "126", "127", "125", "200", "254"]) for _ in range(60)]
+                env2["VERIF_REC_SCRIPT"] = ",".join(statuses)
+                st.inc("pipelines_with_failing_command")
             p1 = subprocess.Popen([common.FIND] + flag + [spelling] + follow_opt + ["-sorted", "-print0"], cwd=sb, env=env, stdout=subprocess.PIPE, stderr=subprocess.PIPE)
             nper = rng.choice([None, 1, 3])
             xa = [common.XARGS, "-0"] + (["-n", str(nper)] if nper else []) + [common.REC, "--"]
@@ -157,7 +228,8 @@ def worker(job):
             st.inc("pipelines")
             st.inc("argv_elements_compared", len(got))
             st.add("distinct", tuple(exp))
-            if got != exp or p2.returncode != 0 or p1.returncode != 0:
+            ok_rc = (0,) if not statuses else (0, 123)
+            if got != exp or p2.returncode not in ok_rc or p1.returncode != 0:
                 c_exp, c_got = collections.Counter(exp), collections.Counter(got)
                 st.violate("pipe-not-exact", None,
                            {"root": spelling, "find_exit": p1.returncode, "xargs_exit": p2.returncode, "stderr": (e2 or b"")[-200:],
@@ -181,7 +253,9 @@ def run(ctx):
     nw = common.NCPU
     n = ctx.scale(640, 12800)
     ctx.pmap(worker, [(k, n // nw, ctx.seed) for k in range(nw)])
+    ctx.pmap(very_long_worker, [(k, ctx.scale(1, 6), ctx.seed) for k in range(nw)])
+    ctx.require("very_long_path_runs", 4)
     for c in ("names_with:newline", "names_with:leading-dash", "names_with:quote", "names_with:backslash", "names_with:only-blanks",
-              "names_with:braces", "names_with:glob", "names_with:4byte", "names_with:long", "names_with:control", "pipelines", "blank_only_starting_points",
+              "names_with:braces", "names_with:glob", "names_with:4byte", "names_with:long", "names_with:control", "pipelines", "pipelines_with_failing_command", "blank_only_starting_points",
               "tree_shape:long-chain"):
         ctx.require(c, 1)
